@@ -295,6 +295,11 @@ func (fc *FnCtx) globalAddr(g *ssa.Global) Val {
 	}
 	if sortOf(elem) != "" {
 		region := "G." + name
+		if g.Pkg != fc.eng.pkg {
+			// package-level variables of dependencies (io.EOF, ...) are treated as constants
+			region = "K.G." + name
+			fc.trusted["package-level variable "+name+" of a dependency is treated as a constant"] = true
+		}
 		if fc.eng.immutableGlobals[g] {
 			region = "K.G." + name
 			fc.immutableGlobalFacts(g, region, elem)
@@ -1293,6 +1298,12 @@ func (fc *FnCtx) execReturn(x *ssa.Return) {
 	}
 	env.inPost = true
 	for i, en := range fc.con.Ensures {
+		if fc.con.Trusted != "" {
+			// trusted contract: the postconditions are assumed at call sites, not proved on this body
+			// (safety obligations of the body are still generated); reported in the trusted base
+			fc.trusted["postconditions of "+fc.name+" are assumed, not proved: "+fc.con.Trusted] = true
+			break
+		}
 		t := fc.evalBool(en.E, env)
 		detail := fmt.Sprintf("%d", i+1)
 		if en.Label != "" {
@@ -1307,7 +1318,7 @@ func (fc *FnCtx) execReturn(x *ssa.Return) {
 			fc.oblige("post", d, g, en.Props, "ensures "+en.Text, x.Pos())
 		}
 	}
-	if fc.con.HasAssigns {
+	if fc.con.HasAssigns && fc.con.Trusted == "" {
 		fc.checkFrame(x.Pos())
 	}
 	// locks must be balanced
